@@ -159,14 +159,14 @@ class C19(Prop):
                     for w in o["writes"].split(","):
                         if w == "-" or b".snap" not in unhx(w.split(":", 1)[1]).rsplit(b"/", 1)[-1]:
                             continue      # only snapshot files are this property's subject
-                        last_value[w.split(":", 1)[1]] = (kv["pre"][3:], kv.get("form", ""))
+                        last_value[w.split(":", 1)[1]] = (kv["pre"][3:], "value" if kv["api"] == "standjson" else kv.get("form", ""))
             for p, (v, form) in last_value.items():
                 if final1.get(p) != v:
                     f = {"msg": "file %r does not hold the recorded value verbatim" % unhx(p)}
                     if form == "value" and final1.get(p) is not None:
-                        # the call handed a Go VALUE: the expected text is this harness's idea of its encoding (json.Marshal). A file
-                        # that holds the SAME JSON value in another spelling (`<` for `\u003c`) is the formatted value of a library
-                        # that encodes differently - a broken tie, not a file that holds something else than the value
+                        # a JSON call: the expected text is this harness's idea of the canonical text (json.Marshal for Go values, the
+                        # package's default layout). A file that holds the SAME JSON value in another spelling or layout is the
+                        # formatted value of a library that formats differently - a broken tie, not a file that holds something else
                         try:
                             import json as _json
                             if _json.loads(unhx(final1[p]).decode("utf-8")) == _json.loads(unhx(v).decode("utf-8")):
